@@ -85,6 +85,11 @@ CHECKS["C18"] = ("exploration",
     "For each of the 15 inductive estimators and a few fitted states, predict/predict_proba on ALL 31 non-empty subsets and ALL 120 permutations of 5 new points and of the 5 training points must return the corresponding rows of the full-array prediction (labels exact, probabilities 1e-12), independent of memory layout, and predict(train)==labels_ (KernelRIM evaluates its kernel against the stored training points).",
     "5 rows per array; BLAS shape effects tolerated at 1e-12.",
     "5/C18")
+CHECKS["C11"] = ("exploration",
+    "bounded-exhaustive enumeration of kernel/metric/ovo/gemini hyperparameter values on all estimators exposing them, with independently constructed expectations and a named-vs-precomputed differential oracle on real fits/paths",
+    "Every estimator exposing kernel/metric/ovo/gemini/base_kernel x every accepted value (names with and without non-default parameter dictionaries, callables, precomputed, both ovo flags, gemini None / 13 names / instances): get_gemini().compute_affinity must equal scikit-learn called directly (bitwise), the callable's output or the user's matrix, and evaluate on probe predictions must equal the textbook reference of the described (distance, OvA/OvO). Missing precomputed matrices must raise. Differential: fit / path / score with a named kernel or metric and with the same matrix given as 'precomputed' must give bitwise-equal fitted attributes, path histories, best weights and scores (gradient models with and without mini-batches, Kauri).",
+    "scikit-learn's pairwise functions are the meaning of names; small data (n=5..8).",
+    "5/C11")
 NOT_APPLICABLE = {}
 
 def main():
